@@ -87,6 +87,11 @@ TNormal ==
      \/ Is("StubRet") /\ HasM /\ ~Ev.panicked /\ StubOK(M) /\ UNCHANGED allvars
      \/ Is("Routers") /\ Ev.count = CountOn(Ev.node) /\ UNCHANGED allvars
      \/ Trace[l].ev \notin Handled /\ UNCHANGED allvars
+     \* leftovers of an earlier section on the same connections (a late reply on its way, a handler that
+     \* returns late): events of the server side and of the receiver about a request this section did not issue
+     \/ Trace[l].ev \in {"HStart", "HRelease", "HReturn", "HReply", "HFail", "HAbort"} /\ ~HasM /\ UNCHANGED allvars
+     \/ Trace[l].ev \in {"SrvRecv", "RecvOk"} /\ Ev.msg \notin used /\ UNCHANGED allvars
+     \/ Is("Route") /\ Ev.msg \notin used /\ ~Ev.found /\ UNCHANGED allvars
 
 \* after ProgEnd (and before the first Prog) nothing is judged
 TIdle == /\ l <= Len(Trace) /\ ~Is("Prog") /\ ~live
